@@ -344,6 +344,27 @@ def _parents(n):
 
 
 # ------------------------------------------------------------------------------------------------
+@rule("C12.nodes", "the oriented graph keeps every variable of the skeleton (isolated variables included)", floor=1)
+def nodes(rc):
+    """A variable that is independent of all others has no edge in the skeleton; a PDAG built from edge lists alone silently loses it, and so does the DAG
+    extended from it: the result is then not the CPDAG of the true graph over the data's variables."""
+    fi = rc.repo.func(PCF, "PC.skeleton_to_pdag")
+    skel = fi.params[0]
+    rets = [r for r in returns_of(fi) if r.value is not None]
+    ok = False
+    for r in rets:
+        v = r.value
+        if isinstance(v, ast.Name):
+            if tm.has(fi.node, "_R.add_nodes_from(_S.nodes())", {"_R": v.id, "_S": skel}) or tm.has(fi.node, "_R.add_nodes_from(_S)", {"_R": v.id, "_S": skel}):
+                ok = True
+        elif isinstance(v, ast.Call) and call_name(v) == "PDAG":
+            ok = False
+    rc.ob(f"skeleton_to_pdag: the result receives all nodes of `{skel}`: {ok}")
+    if not ok:
+        rc.fail(fi, rets[-1] if rets else fi.node, "skeleton_to_pdag builds the PDAG from the directed and undirected EDGE lists only: variables without any edge (independent of everything) "
+                "are missing from the CPDAG and from the DAG extended from it", construct="pdag without isolated nodes")
+
+
 @rule("C12.sepset", "separating sets are stored and read under the unordered pair; CI callables get (u, v, separating_set) unchanged", floor=6)
 def sepset(rc):
     fi = rc.repo.func(PCF, "PC.build_skeleton")
@@ -615,6 +636,8 @@ def defuse(rc):
     _sh.defuse_rule(rc, _sh.anchor_files("C12"))
 
 MUTANTS = [
+    dict(kind="break", name="pdag-loses-isolated-variables", file=PCF, expect="C12.nodes",
+         old="        result.add_nodes_from(skeleton.nodes())\n", new=""),
     dict(kind="break", name="stable-candidates-from-one-endpoint", file=PCF, expect="C12.sepset",
          old="                        combinations(set(neighbors[u]) - set([v]), lim_neighbors),\n                        combinations(set(neighbors[v]) - set([u]), lim_neighbors),",
          new="                        combinations(set(neighbors[u]) - set([v]), lim_neighbors),\n                        combinations(set(neighbors[u]) - set([v]), lim_neighbors),"),
